@@ -464,37 +464,87 @@ def parser_signatures(pdb, R=None):
     return out
 
 
+# small, pure derivations (logarithms, layer sizes, constants tables, the z/alpha pick): compared exactly. The large
+# data-mapping functions are compared end to end instead (parser_e2e), which does not depend on how they are written.
+EXACT_FUNCTIONS = ('::log2_if_power_of_2', '::log_trace_domain_size', '::log_eval_damain_size', '::layer_log_sizes',
+                   '::extract_z_and_alpha', '::Layout::bytes_encode', '::Builtin::ordered')
+EXACT_PREFIXES = ('swiftness_proof_parser::layout::LayoutConstants::',)
+
+
 def parser_mapping(pdb, rep, R):
-    """what the parser derives from the file: for every function of the parser that existed on the pinned tree, each struct
-    field it builds and its return value are computed from the same source fields, operations, constants (by value) and
-    constant indices (tables/c19_parser_signatures.json). Renamed temporaries, reordered statements and operand order do
-    not matter; another field, operation, constant or index does."""
+    """what the parser derives from the file, two tiers.
+    (a) exact, for the small pure derivations (log2 helper, log sizes, FRI layer sizes, per-layout constants, z/alpha
+        pick): each struct field they build and their return value are computed from the same source fields, operations
+        (with multiplicity), constants by value, constant indices and comparisons as confirmed on the pinned tree.
+    (b) end to end, for everything else: in TryFrom<json StarkProof> for the parsed StarkProof (all callees inlined by the
+        dataflow) no field of the result acquires a source field of the file, a constant or a constant index that it
+        did not have on the pinned tree. Internal restructuring (helpers, loops versus pipelines) does not matter."""
     path = os.path.join(os.path.dirname(SAFE_PATH), 'c19_parser_signatures.json')
     if not os.path.exists(path):
         rep.fail_closed('C19.mapping', 'tables/c19_parser_signatures.json missing')
         return
     with open(path) as fh:
-        want = json.load(fh)['functions']
+        tab = json.load(fh)
+    want = tab['functions']
     cur = parser_signatures(pdb, R)
     n = 0
+    from collections import Counter
     for p, d in sorted(want.items()):
+        if not (p.endswith(EXACT_FUNCTIONS) or p.startswith(EXACT_PREFIXES)):
+            continue
         c = cur.get(p)
         if c is None:
-            continue        # function removed / renamed / inlined: a refactor, its callers are compared instead
+            continue        # function removed / renamed / inlined: covered by the end-to-end tier
         diffs = []
         for key, sig in sorted(d.items()):
             if key not in c:
                 continue
             n += 1
             if c[key] != sig:
-                from collections import Counter
                 ca, cb = Counter(map(str, c[key])), Counter(map(str, sig))
-                add = sorted((ca - cb).elements())
-                gone = sorted((cb - ca).elements())
-                diffs.append(f'{key}: now also from {add[:4]}, no longer from {gone[:4]}')
+                diffs.append(f'{key}: now also {sorted((ca - cb).elements())[:4]}, no longer {sorted((cb - ca).elements())[:4]}')
         rep.ob('C19.mapping', p, not diffs, f'{p.split("::")[-1]}: {len(d)} derived values' + (' as confirmed' if not diffs else '; changed: ' + '; '.join(diffs[:3])),
                pdb.fns[p].loc(), 'parser')
-    rep.floor('C19.mapping', 'derived values compared with the table', n, 60)
+    rep.floor('C19.mapping', 'derived values compared exactly', n, 40)
+    # (b)
+    e2e = parser_e2e(pdb)
+    wante = tab.get('e2e', {})
+    if e2e is None:
+        rep.fail_closed('C19.mapping', 'TryFrom<json StarkProof> for StarkProof not found')
+        return
+    m = 0
+    for key, sig in sorted(wante.items()):
+        c = e2e.get(key)
+        if c is None:
+            continue
+        m += 1
+        new = sorted(set(c) - set(sig))
+        rep.ob('C19.mapping', f'e2e|{key}', not new,
+               f'parsed field {key} is computed from {len(c)} sources' + ('' if not new else f'; new with respect to the confirmed tree: {new[:5]}'),
+               '', 'parser')
+    rep.floor('C19.mapping', 'result fields compared end to end', m, 60)
+
+
+def parser_e2e(pdb):
+    top = [p for p in pdb.fns if 'TryFrom<swiftness_proof_parser::json_parser::StarkProof>' in p and p.endswith('::try_from')]
+    if len(top) != 1:
+        return None
+    import guardtable as GT
+    fn = pdb.fns[top[0]]
+    fl = dataflow.Flow(pdb, fn)
+    agg = fl.agg.get(fl.find(0), {})
+    out = {}
+    for k, lv in agg.items():
+        if k.count('.') > 4:
+            continue
+        sig = set()
+        for x in GT.norm_side(pdb, lv):
+            if re.match(r'^a1', x):
+                sig.add(fieldflow.canon(x))
+            elif x.startswith(('val:', 'idx:')):
+                sig.add(x)
+        out[k] = sorted(sig)
+    return out
 
 
 def _const_indices(t):
